@@ -289,6 +289,26 @@ def run(ctx: Ctx) -> int:
                     ok = tested == written
                     ctx.oblige("C11.c", ok, s_, f"update(only_unset) tests membership of the key it writes (`{written}`)" if ok else f"update(only_unset) tests `{tested}` but writes `{written}`: an unset nested key is skipped (or a set one overwritten) depending on an unrelated key", fn=up)
     ctx.floor("C11.c-update-guards", n_up, 2)
+    # an EMPTY nested namespace has no leaves: update carries it over as a branch of its own (fix 9f92672 - the settings
+    # of a subcommand without arguments, `b: {}`, vanished when the parsed config was merged with the defaults and the
+    # subcommand could no longer be inferred from the dump)
+    from .util import guard_atoms as _ga11
+
+    loops_u = [l for l in walk_local(up) if isinstance(l, ast.For) and isinstance(l.iter, ast.Call) and call_leaf(l.iter) == "items"]
+    ctx.need(loops_u, "Namespace.update: for key, val in value.items(...)")
+    with_br = [l for l in loops_u if any(k.arg == "branches" and isinstance(k.value, ast.Constant) and k.value.value is True for k in l.iter.keywords)]
+    empties = []
+    for l in with_br:
+        vname = l.target.elts[1].id if isinstance(l.target, ast.Tuple) and isinstance(l.target.elts[1], ast.Name) else None
+        for s_ in [x for x in ast.walk(l) if isinstance(x, ast.Assign) and isinstance(x.targets[0], ast.Subscript) and root_name(x.targets[0].value) == "self" and isinstance(x.value, ast.Call) and call_leaf(x.value) == "Namespace" and not x.value.args]:
+            at = _ga11(s_, stop=l)
+            is_ns = any(pol and isinstance(t, ast.Call) and call_leaf(t) == "isinstance" and ast.unparse(t.args[0]) == vname for t, pol in at)
+            is_empty = any(not pol and isinstance(t, ast.Name) and t.id == vname for t, pol in at)
+            others = [ast.unparse(t) for t, pol in at if not (isinstance(t, ast.Call) and call_leaf(t) == "isinstance") and not (isinstance(t, ast.Name) and t.id == vname) and not (isinstance(t, ast.Compare) and isinstance(t.ops[0], (ast.In, ast.NotIn)) and root_name(t.comparators[0]) == "self")]
+            if is_ns and is_empty and not others:
+                empties.append(s_)
+    ok = bool(empties)
+    ctx.oblige("C11.c", ok, empties[0] if empties else loops_u[0], "update creates the empty branches of the given namespace that the receiver lacks" if ok else "update only copies leaves: an empty nested namespace in the given one leaves no trace - after merging with the defaults the section `b: {}` of a subcommand without arguments is gone, the subcommand cannot be inferred and the parser rejects its own dump", fn=up, construct="empty branches carried over")
 
     # ---------------- C11.b ---------------------------------------------------
     # kinds of parent _parse_key can return
@@ -383,23 +403,67 @@ def run(ctx: Ctx) -> int:
     ctx.oblige("C11.b", ok, hs_[0] if hs_ else cont, "__contains__ turns every KeyError of the key walk into False" if ok else f"__contains__ only catches {sorted(names_)}: a key that steps through a dict value (`'opts.copy.x' in ns`) raises the dict's plain KeyError instead of answering False", fn=cont, construct="contains never raises")
 
     # ---------------- C11.d ---------------------------------------------------
-    # as_dict converts containers element for element: no comprehension in it filters elements away, and a list /
-    # dict is only converted when ALL its elements are namespaces (mixed containers are left as they are)
+    # as_dict converts namespaces at every depth, element for element (fix 3762e69: only containers made up entirely
+    # of namespaces were converted; [spec, None] / [[spec]] kept Namespace objects and the json dump raised):
+    #  - as_dict stores the converted value of EVERY key (no condition on the store);
+    #  - the converter has an arm for Namespace, dict and list; every arm is selected by type tests alone (no
+    #    all()/any() quantifier over the elements) and maps every element through the converter (no filter).
+    from .util import guard_atoms
+
     asd = ctx.func("_namespace:Namespace.as_dict")
-    comps = [n_ for n_ in walk_local(asd) if isinstance(n_, (ast.ListComp, ast.DictComp, ast.SetComp)) and not isinstance(getattr(n_, "_jv_parent", None), ast.Call)]
-    ctx.floor("C11.d-as_dict-comprehensions", len(comps), 2)
-    for cmp_ in comps:
-        filtered = [t for g_ in cmp_.generators for t in g_.ifs]
-        guards_ = [ast.unparse(t) for t, pol in guard_chain(cmp_, stop=asd) if pol]
-        quant_ok = any("all(" in g_ for g_ in guards_) and not any("any(" in g_ for g_ in guards_)
-        ok = not filtered and quant_ok
-        ctx.oblige(
-            "C11.d",
-            ok,
-            cmp_,
-            "this container is converted element for element, and only when all its elements are namespaces" if ok else "as_dict drops elements (filtered comprehension) or converts a mixed container: a list with a null or scalar next to class specs comes out shorter, so the dumped configuration re-parses to a different value",
-            fn=asd,
-        )
+    stores = [s_ for s_ in walk_local(asd) if isinstance(s_, ast.Assign) and isinstance(s_.targets[0], ast.Subscript)]
+    ctx.need(stores, "as_dict: dic[<key>] = <converted value>")
+    conv_names = {call_leaf(s_.value) for s_ in stores if isinstance(s_.value, ast.Call) and isinstance(s_.value.func, ast.Name)}
+    if len(conv_names) != 1 or not ctx.repo.has_func(f"_namespace:{next(iter(conv_names))}"):
+        ctx.oblige("C11.d", False, stores[0], "as_dict does not pass every value through one recursive converter: only some container shapes are converted - a list that mixes class specs with nulls or scalars, or nests them ([[spec]], {'a': [spec]}), keeps Namespace objects and the json dump of an accepted configuration raises TypeError", fn=asd, construct="converter for every depth")
+        conv_name = None
+    else:
+        conv_name = next(iter(conv_names))
+    nad = ctx.func(f"_namespace:{conv_name}") if conv_name else None
+    if nad is not None:
+        npar = nad.args.args[0].arg
+        for s_ in stores:
+            loops = [l for l in walk_local(asd) if isinstance(l, ast.For) and any(x is s_ for x in ast.walk(l))]
+            ok = isinstance(s_.value, ast.Call) and call_leaf(s_.value) == conv_name and not guard_atoms(s_, stop=asd) and len(loops) == 1 and "vars(self)" in ast.unparse(loops[0].iter)
+            ctx.oblige("C11.d", ok, s_, "every key of the namespace is stored with its converted value" if ok else "as_dict stores some values unconverted or skips keys: Namespace objects left in the result make the json dump raise TypeError, skipped keys vanish from the dump", fn=asd)
+
+        def _is_type_test(t: ast.AST) -> bool:
+            if isinstance(t, ast.Call) and call_leaf(t) == "isinstance" and isinstance(t.args[0], ast.Name) and t.args[0].id == npar:
+                return True
+            return isinstance(t, ast.Compare) and isinstance(t.left, ast.Call) and call_leaf(t.left) == "type" and ast.unparse(t.left.args[0]) == npar
+
+        arms = {}
+        for r in [x for x in walk_local(nad) if isinstance(x, ast.Return) and x.value is not None]:
+            at = guard_atoms(r, stop=nad)
+            pos = [t for t, pol in at if pol]
+            kinds = {k for t in pos for k in ("Namespace", "dict", "list", "tuple") if _is_type_test(t) and k in {n_.id for n_ in ast.walk(t) if isinstance(n_, ast.Name)}}
+            extra = [ast.unparse(t) for t, pol in at if not _is_type_test(t)]
+            for k in kinds:
+                arms[k] = (r, extra)
+        for k in ("Namespace", "dict", "list"):
+            ok = k in arms and not arms[k][1]
+            ctx.oblige("C11.d", ok, arms[k][0] if k in arms else nad, f"{conv_name} converts a {k} whenever the value is one" if ok else (f"{conv_name} has no arm for {k} values" if k not in arms else f"the {k} arm of {conv_name} also depends on {arms[k][1]}: containers that mix namespaces with nulls or scalars (List[Optional[Cls]] = [spec, None]) are left as they are or break the conversion - the json dump of an accepted configuration raises"), fn=nad, construct=f"{k} arm")
+        if "Namespace" in arms:
+            rv = arms["Namespace"][0].value
+            ok = isinstance(rv, ast.Call) and call_leaf(rv) == "as_dict" and root_name(rv.func) == npar
+            ctx.oblige("C11.d", ok, arms["Namespace"][0], "a namespace is converted by its own as_dict" if ok else "the Namespace arm does not return <value>.as_dict()", fn=nad)
+        comps = [n_ for r_ in walk_local(nad) if isinstance(r_, ast.Return) and r_.value is not None for n_ in ast.walk(r_.value) if isinstance(n_, (ast.ListComp, ast.DictComp, ast.SetComp, ast.GeneratorExp))]
+        ctx.floor("C11.d-as_dict-comprehensions", len(comps), 2, defer=True)
+        for cmp_ in comps:
+            filtered = [t for g_ in cmp_.generators for t in g_.ifs]
+            elt = cmp_.value if isinstance(cmp_, ast.DictComp) else cmp_.elt
+            tgt_names = {n_.id for g_ in cmp_.generators for n_ in ast.walk(g_.target) if isinstance(n_, ast.Name)}
+            mapped = isinstance(elt, ast.Call) and call_leaf(elt) == conv_name and len(elt.args) == 1 and isinstance(elt.args[0], ast.Name) and elt.args[0].id in tgt_names
+            whole = all(root_name(g_.iter if not isinstance(g_.iter, ast.Call) else g_.iter.func) == npar for g_ in cmp_.generators)
+            keyok = not isinstance(cmp_, ast.DictComp) or (isinstance(cmp_.key, ast.Name) and cmp_.key.id in tgt_names)
+            ok = not filtered and mapped and whole and keyok
+            ctx.oblige(
+                "C11.d",
+                ok,
+                cmp_,
+                "this container is converted element for element" if ok else "the conversion drops elements (filtered comprehension), leaves elements unconverted or changes keys: a list with a null or scalar next to class specs comes out shorter or keeps Namespace objects, so the dumped configuration re-parses to a different value or the json dump raises",
+                fn=nad,
+            )
 
     return ctx.finish(
         explanation=(
